@@ -14,6 +14,8 @@ sym_born       symmetrize_borns_and_epsilon (_take_average_of_borns, _symmetrize
                in E2 on *symbolic* Born and dielectric tensors: output == space-group average (harness oracle, Cartesian rotations
                checked orthogonal) minus the mean charge; dielectric tensor == point-group average; a second application changes
                nothing; tensors selected for a primitive cell belong to the atoms at the primitive positions.  LRA.
+gl_comm        Gonze-Lee: at every non-zero commensurate q the corrected matrix equals the uncorrected one (1e-6) for all force constants,
+               on triclinic and hexagonal cells (non-symmetric lattice matrices).
 gl_periodic    Gonze-Lee: D(q+G0) == U D(q) U^dagger (U = diag e^{-2 pi i G0.tau}) for all force constants, to the reciprocal-sum
                precision - ties the phase convention of the dipole-dipole kernel (which has no Python twin) to the Fourier sum's.
 gl_direction   Gonze-Lee: D(Gamma; n) - D(Gamma; n0) == term(n) - term(n0) for symbolic n (Z, eps concrete, real
@@ -37,7 +39,8 @@ FACTOR = 14.4
 def units(tier):
     u = [("wang_gamma", "tric2", "211", "Zeps"), ("wang_gamma", "tric2", "211", "n"),
          ("wang_length", "tric2", "211"), ("wang_comm", "tric2", "211"), ("zero_born", "tric2", "211", "wang"),
-         ("zero_born", "tric2", "211", "gonze"), ("gl_direction", "tric2", "211"), ("gl_periodic", "tric2", "211")]
+         ("zero_born", "tric2", "211", "gonze"), ("gl_direction", "tric2", "211"), ("gl_periodic", "tric2", "211"),
+         ("gl_comm", "tric2", "211"), ("gl_comm", "tric2", "311"), ("gl_comm", "hex2", "211")]
     u += [("sym_born", c, "-") for c in SB_CRYSTALS]
     if tier == "thorough":
         u += [("wang_gamma", "mono2", "nd1", "Zeps"), ("wang_gamma", "hex2", "211", "n"), ("wang_comm", "cscl", "311"), ("wang_gamma", "tric2", "211", "all"),
@@ -223,7 +226,7 @@ def run_unit(u):
         return sym_born_unit(u, res)
     ctx = harness.setup()
     kind, gid, sid = u[0], u[1], u[2]
-    method = "gonze" if (kind in ("gl_direction", "gl_periodic") or (kind == "zero_born" and u[3] == "gonze")) else "wang"
+    method = "gonze" if (kind in ("gl_direction", "gl_periodic", "gl_comm") or (kind == "zero_born" and u[3] == "gonze")) else "wang"
     case, rng = make_case(gid, sid, method)
     br = bridge.Bridge(ctx.shim, ctx.ir)
     br.install()
@@ -362,6 +365,25 @@ def run_unit(u):
                     ok, what = replay_zero_born(gid, sid, method, harness.model_floats(m, xs), q)
                     (res.violations if ok else res.unconfirmed).append({"key": "%s:zero_born:%s:q%d" % (PID, method, qi), "what": what, "replay": {"unit": [str(x) for x in u], "q": q}})
             res.twins.append({"name": "zero-born twin", "verdict": "sat"})
+        elif kind == "gl_comm":
+            # Gonze-Lee at the non-zero commensurate points: the dipole-dipole part subtracted when the short-range force constants are
+            # built and the one added back at q must cancel (two sites that have to agree on q in Cartesian coordinates), for all
+            # force constants, on lattices whose matrix is not symmetric
+            xs, fc = case.sym_full_fc()
+            A = box(xs)
+            comm = [list(map(float, c)) for c in case.commensurate_points() if np.abs(c).max() > 1e-9]
+            D1 = case.D_c(br, fc, comm, dm=dm)
+            D0 = case.D_c(br, fc, comm, is_nac=False, dm=dm)
+            for qi, q in enumerate(comm):
+                v, m, idx = assert_equal(res, "Gonze-Lee correction vanishes at commensurate q=%s (within 1e-6)" % q, cflat(D1[qi]), cflat(D0[qi]), A, tol=1e-6, chunk=12)
+                if v == "sat":
+                    ok, what = replay_gl_comm(gid, sid, harness.model_floats(m, xs), q)
+                    (res.violations if ok else res.unconfirmed).append({"key": "%s:gl_comm:%s/%s:q%d" % (PID, gid, sid, qi), "what": what, "replay": {"unit": [str(x) for x in u], "q": q}})
+                elif v == "unknown":
+                    res.notes.append("inconclusive gl_comm q%d" % qi)
+            Dg = case.D_c(br, fc, [[0.13, 0.21, 0.34]], dm=dm)[0]; Dp = case.D_c(br, fc, [[0.13, 0.21, 0.34]], is_nac=False, dm=dm)[0]
+            v2, _, _ = assert_equal(Result("t"), "twin", cflat(Dg), cflat(Dp), A, tol=1e-6, chunk=12)
+            res.twins.append({"name": "gl_comm twin: at a generic q the correction does not vanish", "verdict": v2})
         elif kind == "gl_periodic":
             # Gonze-Lee dynamical matrix (short-range force constants + reciprocal dipole-dipole kernel) under q -> q + G0:
             # D(q+G0)_{jj'} = e^{2 pi i G0.(tau_j' - tau_j)} D(q)_{jj'} up to the reciprocal-sum truncation.  The dipole-dipole
@@ -461,6 +483,19 @@ def _decide(res, u, sub, v, m, zs, evars, ns, case, fc_conc, Zc, mode, lam=None,
     nfr = [model_value(m, x) for x in ns] if ns else [0.3, -0.2, 0.5]
     ok, what = replay_wang(case, fc_conc, Z, eps, nfr, sub, lam=(model_value(m, lam) if lam is not None else None), q=q)
     (res.violations if ok else res.unconfirmed).append({"key": key, "what": what, "replay": {"Z": Z.tolist(), "eps": eps.tolist(), "n": nfr}})
+
+
+@symnp.outside_session
+def replay_gl_comm(gid, sid, x, q):
+    case, rng = make_case(gid, sid, "gonze")
+    ph = geometries.phonopy_obj(gid, sid)
+    n = len(ph.supercell)
+    ph.force_constants = np.array(x, dtype="double").reshape(n, n, 3, 3)
+    ph.dynamical_matrix.run(np.array(q, dtype=float)); D0 = ph.dynamical_matrix.dynamical_matrix.copy()
+    ph.nac_params = case.nac
+    ph.dynamical_matrix.run(np.array(q, dtype=float)); D1 = ph.dynamical_matrix.dynamical_matrix
+    d = float(np.abs(D1 - D0).max())
+    return d > 1e-6, "Gonze-Lee NAC changes the dynamical matrix at the commensurate point q=%s by %.3g (%s/%s)" % (q, d, gid, sid)
 
 
 @symnp.outside_session
